@@ -348,8 +348,11 @@ class Scenario:
         if r < 0.35:
             return {'op': 'save_session', 'sid': sid, 'ns': ns,
                     'v': {rng.choice(['u', 'v', 'w']): G.gen_value(rng, 2, 0.0)}}
-        if r < 0.7:
+        if r < 0.6:
             return {'op': 'get_session', 'sid': sid, 'ns': ns}
+        if r < 0.72:
+            return {'op': 'session_nested', 'sid': sid, 'ns': ns, 'k': rng.choice(['u', 'v']), 'v': G.gen_value(rng, 1, 0.0),
+                    'k2': rng.choice(['n', 'w']), 'v2': G.gen_value(rng, 1, 0.0)}
         op = {'op': 'session_block', 'sid': sid, 'ns': ns, 'k': rng.choice(['u', 'v', 'n']),
               'v': G.gen_value(rng, 1, 0.0)}
         if rng.random() < 0.25:
